@@ -591,7 +591,7 @@ pub fn process<I: BufRead, O: Write>(
                         if !params.is_empty() {
                             for (k, v) in caps.get(2).unwrap().as_str().split(',').enumerate() {
                                 let vx = v.trim_start();
-                                value = value.replace(&format!("\u{1}{}\u{1}", k), &format!("${}", vx));
+                                value = value.replace(&format!("\u{1}{}\u{1}", k), &format!("${{{}}}", vx));
                                 //rex += &format!("(?P<{}>[^,]*?),", vx);
                                 rex += &format!(
                                     r"(?P<{}>(?:[^,)(]|\((?:[^)(]|\((?:[^)(]|\((?:[^)(]|\([^)(]*\))*\))*\))*\))*),",
